@@ -196,6 +196,32 @@ pub fn run_attacks_out(ctx: &mut Ctx, attacks: &[Attack]) -> Vec<Outcome<Value>>
         }
         results.push((r, (i, j), spec));
     }
+    // the verdict of a call does not depend on what the same thread verified before: the calls once more, one after another on
+    // ONE thread (key-bound accepted ones first, so that whatever a thread remembers is filled by them), same outcome class
+    if ["C02", "C03", "C04", "C08", "C09", "C10"].contains(&ctx.prop.as_str()) && attacks.len() >= 2 && ctx.started.elapsed().as_secs() < 45 {
+        let mut order: Vec<usize> = (0..attacks.len()).collect();
+        order.sort_by_key(|&k| match (&results[k].0.out, attacks[k].args.aud.is_some()) { (Outcome::Ok(_), true) => 0, (Outcome::Ok(_), false) => 1, _ => 2 });
+        let calls: Vec<VerifyArgs> = order.iter().map(|&k| attacks[k].args.clone()).collect();
+        if let Some(seq) = verify_sequence(&calls, &[]) {
+            ctx.impl_calls += calls.len();
+            ctx.oracle_checks += 1;
+            ctx.count_n("same_thread_replay.calls", calls.len());
+            let mut reported = 0;
+            for (pos, &k) in order.iter().enumerate() {
+                let (alone, together) = (&results[k].0, &seq[pos]);
+                if alone.out.class() != together.out.class() && alone.t0 + 20 > together.t1 && reported < 5 {
+                    reported += 1;
+                    let a = &attacks[k];
+                    ctx.violation("oracle", "verify", &format!("the verdict depends on what the thread verified before: {} alone, {} as call {} of a sequence on one thread ({})", alone.out.class(), together.out.class(), pos, a.name),
+                                  json!({"attack": a.name, "input": a.args.input, "fmt": a.args.fmt.name(), "resolver": a.args.resolver.json(), "aud": a.args.aud, "nonce": a.args.nonce, "origin": a.origin, "expect": a.expect.json(),
+                                         "position_in_sequence": pos}),
+                                  together.out.describe(), alone.out.describe());
+                }
+            }
+        } else {
+            ctx.notes.push("same-thread replay did not return within its allowance".into());
+        }
+    }
     let resp = run_model(&reqs);
     for (a, (r, (i, j), spec)) in attacks.iter().zip(&results) {
         cmp_verify(ctx, &a.args, r, &resp[*i], &resp[*j]);
@@ -212,8 +238,10 @@ pub fn run_attacks_out(ctx: &mut Ctx, attacks: &[Attack]) -> Vec<Outcome<Value>>
                 let iss = parts.payload().and_then(|p| p.get("iss").and_then(Value::as_str).map(String::from));
                 for (ciss, chdr) in &r.resolver_calls {
                     let same_iss = iss.as_deref() == Some(ciss.as_str());
+                    // every string-valued member the library's header type knows: the same on both sides
                     let same_hdr = match (chdr.as_object(), hdr.as_ref().and_then(Value::as_object)) {
-                        (Some(c), Some(h)) => c.iter().all(|(k, v)| !v.is_string() || h.get(k) == Some(v)),
+                        (Some(c), Some(h)) => c.iter().all(|(k, v)| !v.is_string() || h.get(k) == Some(v))
+                            && ["typ", "alg", "cty", "jku", "kid", "x5u", "x5t", "x5t#S256"].iter().all(|k| match h.get(*k) { Some(v) if v.is_string() => c.get(*k) == Some(v), _ => true }),
                         _ => false,
                     };
                     if hdr.is_some() && iss.is_some() && (!same_iss || !same_hdr) {
